@@ -157,6 +157,21 @@ def canon(obj) -> str:
     return json.dumps(obj, sort_keys=True, default=repr)
 
 
+def raised_by_implementation(e: BaseException) -> bool:
+    """was the exception raised below a frame of /repo (the library, or something the library called), rather than by harness code?"""
+    tb = e.__traceback__
+    files = []
+    while tb is not None:
+        files.append(tb.tb_frame.f_code.co_filename)
+        tb = tb.tb_next
+    last_harness = max((i for i, f in enumerate(files) if f.startswith(VERIF)), default=-1)
+    return any(f.startswith("/repo/") for f in files[last_harness + 1:])
+
+
+def errname_tb(e: BaseException) -> str:
+    return "".join(traceback.format_exception(type(e), e, e.__traceback__))[-1500:]
+
+
 def main():
     ap = argparse.ArgumentParser()
     ap.add_argument("prop")
@@ -270,9 +285,12 @@ def main():
     if drv_ok:
         try:
             corr = mod.correspond(ctx)
-        except Exception:  # noqa: BLE001
-            print("harness crashed (tool failure):", traceback.format_exc()[-2000:])
-            return 2
+        except Exception as e:  # noqa: BLE001
+            if not raised_by_implementation(e):
+                print("harness crashed (tool failure):", traceback.format_exc()[-2000:])
+                return 2
+            # the library raised where the harness (validated on the unchanged tree) expects an answer: a broken correspondence, not a tool failure
+            corr = {"suites": {"implementation-raised": {"cases": 1, "mismatches": [{"error": errname_tb(e)}]}}, "samples": []}
     else:
         corr = {"suites": {"driver-build": {"cases": 0, "mismatches": [{"error": "modeldrv does not build"}]}}, "samples": []}
     phases["correspond_s"] = round(time.time() - t1, 2)
@@ -312,9 +330,12 @@ def main():
         t2 = time.time()
         try:
             searched = mod.search(ctx, broken, seeds)
-        except Exception:  # noqa: BLE001
-            print("search crashed (tool failure):", traceback.format_exc()[-2000:])
-            return 2
+        except Exception as e:  # noqa: BLE001
+            if not raised_by_implementation(e):
+                print("search crashed (tool failure):", traceback.format_exc()[-2000:])
+                return 2
+            ctx.notes.append("the search was stopped by an exception raised inside the library: " + errname_tb(e)[-400:])
+            searched = None
         phases["search_s"] = round(time.time() - t2, 2)
         if searched and canon(searched.get("input")) in open_inputs:
             known_lines.append(f"KNOWN-FINDING: property={prop} (found again by search) {canon(searched.get('input'))[:200]}")
